@@ -1,2 +1,108 @@
--- placeholder driver (model for C11 not built yet)
-def main : IO Unit := pure ()
+/-
+  Driver for the Batch model (C11).
+
+    batch <oneway 0|1> <pre 0|1> <q0> <gate> <bad> <rows> <calls>
+        → q=<q> log=<n.a,…|-> seen=<submit:E<id> | stream:<v,…|->:<E<id>|-> | nothing>
+    seq <q0> <gate> <bad> <rows> <calls>
+        → q=<q> log=<n.a,…|-> vals=<v,…|-> fail=<E<id>|->
+
+  The remote object is the harness's table-driven reference object (harness/props/c11.py, class Ref):
+    state  = (automaton state q, log of executed calls)
+    gate   = list of q.n.c   (c = 0: `_get_attribute` returns the method; otherwise the id of the AttributeError it
+             raises; a (q, n) that is not listed is a missing attribute = exception 102)
+    bad    = argument ids whose (args, kwargs) do not fit the method signature: TypeError (exception 100) is
+             raised by the call itself, before the body runs — nothing is logged, the state is unchanged
+    rows   = list of q.n.a.q2.k.v : in state q, method n with argument a moves to q2 and returns value v (k = o)
+             or raises exception v (k = e); the call is logged first.  No row: KeyError (exception 0), state kept.
+  pre = 1: the serializer's dumpsCall raises on the client (exception 109).
+  All lists are comma separated, "-" = empty.
+-/
+import PyroModel.Batch
+import Driver.Util
+
+open Pyro Pyro.Batch Driver
+
+structure Tab where
+  gate : List (Nat × Nat × Nat)
+  bad : List Nat
+  rows : List (Nat × Nat × Nat × Nat × Bool × Nat)
+
+abbrev RefSt := Nat × List (Nat × Nat)
+
+def tabObj (t : Tab) : Obj RefSt Nat Nat Nat Nat where
+  gate := fun s n =>
+    match t.gate.find? (fun g => g.1 == s.1 && g.2.1 == n) with
+    | some (_, _, 0) => none
+    | some (_, _, c) => some c
+    | none => some 102
+  apply := fun s n a =>
+    if t.bad.contains a then (s, .exc 100)
+    else
+      let log := s.2 ++ [(n, a)]
+      match t.rows.find? (fun r => r.1 == s.1 && r.2.1 == n && r.2.2.1 == a) with
+      | none => ((s.1, log), .exc 0)
+      | some (_, _, _, q2, isExc, v) => ((q2, log), if isExc then .exc v else .ok v)
+
+def splitList (s : String) : List String :=
+  if s == "-" then [] else s.splitOn ","
+
+def parseDots (s : String) : Option (List Nat) := (s.splitOn ".").mapM String.toNat?
+
+def parseGate (s : String) : Option (List (Nat × Nat × Nat)) :=
+  (splitList s).mapM fun e =>
+    match parseDots e with
+    | some [q, n, c] => some (q, n, c)
+    | _ => none
+
+def parseRows (s : String) : Option (List (Nat × Nat × Nat × Nat × Bool × Nat)) :=
+  (splitList s).mapM fun e =>
+    match e.splitOn "." with
+    | [q, n, a, q2, k, v] =>
+      match q.toNat?, n.toNat?, a.toNat?, q2.toNat?, v.toNat? with
+      | some q, some n, some a, some q2, some v =>
+        if k == "o" then some (q, n, a, q2, false, v)
+        else if k == "e" then some (q, n, a, q2, true, v)
+        else none
+      | _, _, _, _, _ => none
+    | _ => none
+
+def parseCalls (s : String) : Option (List (Nat × Nat)) :=
+  (splitList s).mapM fun e =>
+    match parseDots e with
+    | some [n, a] => some (n, a)
+    | _ => none
+
+def showList (l : List String) : String := if l.isEmpty then "-" else ",".intercalate l
+
+def showLog (l : List (Nat × Nat)) : String := showList (l.map fun p => s!"{p.1}.{p.2}")
+
+def showVals (l : List Nat) : String := showList (l.map toString)
+
+def showExc : Option Nat → String
+  | none => "-"
+  | some e => s!"E{e}"
+
+def showSeen : Seen Nat Nat → String
+  | .submitRaised e => s!"submit:E{e}"
+  | .stream vs r => s!"stream:{showVals vs}:{showExc r}"
+  | .nothing => "nothing"
+
+def step : List String → String
+  | ["batch", ow, pre, q0, gate, bad, rows, calls] =>
+    match q0.toNat?, parseGate gate, parseNatList bad, parseRows rows, parseCalls calls with
+    | some q0, some g, some b, some r, some cs =>
+      let o := tabObj ⟨g, b, r⟩
+      let p : Option Nat := if pre == "1" then some 109 else none
+      let (s, seen) := clientBatch p o (ow == "1") (q0, []) cs
+      s!"q={s.1} log={showLog s.2} seen={showSeen seen}"
+    | _, _, _, _, _ => "bad-op"
+  | ["seq", q0, gate, bad, rows, calls] =>
+    match q0.toNat?, parseGate gate, parseNatList bad, parseRows rows, parseCalls calls with
+    | some q0, some g, some b, some r, some cs =>
+      let o := tabObj ⟨g, b, r⟩
+      let (s, vs, f) := sequential o (q0, []) cs
+      s!"q={s.1} log={showLog s.2} vals={showVals vs} fail={showExc (f.map Fail.exc)}"
+    | _, _, _, _, _ => "bad-op"
+  | _ => "bad-op"
+
+def main : IO Unit := runDriver step
